@@ -3,10 +3,9 @@ package main
 import (
 	"go/types"
 	"reflect"
-	"strings"
 )
 
-// Models added for the second round of seeded changes: reflect.MapIter, strings.Replacer, sync.Map.
+// Models added for the second round of seeded changes: reflect.MapIter, sync.Map.
 
 type mapIterV struct {
 	m      *MapV
@@ -14,8 +13,6 @@ type mapIterV struct {
 	pos    int
 	kt, et types.Type
 }
-
-type replacerV struct{ pairs []Str }
 
 func (e *Engine) syncMapOf(p *Value) *MapV {
 	if e.syncMaps == nil {
@@ -72,37 +69,6 @@ func init() {
 			e.reflectPanic("MapIter.Value called before Next or on exhausted iterator")
 		}
 		return RV{T: it.et, V: copyVal(it.m.vals[it.order[it.pos]]), Valid: true}
-	}
-
-	// strings.Replacer: operands are made concrete (every feasible value is explored through the
-	// recorded concretisation decisions) and the native implementation runs.
-	intrinsics["strings.NewReplacer"] = func(e *Engine, a []Value) Value {
-		s := a[0].(Slice)
-		if s.Len%2 == 1 {
-			e.goPanicStr("strings.NewReplacer: odd argument count")
-		}
-		r := &replacerV{}
-		for i := 0; i < s.Len; i++ {
-			r.pairs = append(r.pairs, (*s.A)[s.Off+i].(Str))
-		}
-		return r
-	}
-	intrinsics["(*strings.Replacer).Replace"] = func(e *Engine, a []Value) Value {
-		r := a[0].(*replacerV)
-		subj := a[1].(Str)
-		allC := subj.isC()
-		for _, p := range r.pairs {
-			allC = allC && p.isC()
-		}
-		if !allC {
-			e.symbolicSeen = true
-		}
-		args := make([]string, len(r.pairs))
-		for i, p := range r.pairs {
-			args[i], _ = e.concStrFork(p, "")
-		}
-		str, _ := e.concStrFork(subj, "")
-		return Str{S: strings.NewReplacer(args...).Replace(str)}
 	}
 
 	// sync.Map: an association list per map object; single-threaded semantics (the lockset monitor
